@@ -170,7 +170,7 @@ Proof. unfold ok32. intros H. rewrite Beqb_refl. exact H. Qed.
 Theorem selection_total_wf_all_f64 (p : profile) (a : algo) (meth : method) s d (m : list PrimFloat.float) (n : N) :
   meth = Single \/ meth = Complete ->
   (n < two32)%N -> wf_shape n (N.of_nat (length m)) ->
-  Forall (fun v => PrimFloat.ltb v (f_max F64) = true) m ->
+  Forall (fun v => PrimFloat.ltb v (f_inf F64) = true) m ->
   (exists s' d' m', run_with F64 p a meth s d m n = Ok (s', d', m') /\ wf_dend (d_obs d') (d_steps d'))
   \/ run_with F64 p a meth s d m n = Panic PNaN.
 Proof.
@@ -186,7 +186,7 @@ Qed.
 Theorem selection_total_wf_all_f32 (p : profile) (a : algo) (meth : method) s d (m : list f32) (n : N) :
   meth = Single \/ meth = Complete ->
   (n < two32)%N -> wf_shape n (N.of_nat (length m)) ->
-  Forall (fun v => Bltb v (f_max F32) = true) m ->
+  Forall (fun v => Bltb v (f_inf F32) = true) m ->
   (exists s' d' m', run_with F32 p a meth s d m n = Ok (s', d', m') /\ wf_dend (d_obs d') (d_steps d'))
   \/ run_with F32 p a meth s d m n = Panic PNaN.
 Proof.
@@ -205,7 +205,7 @@ Theorem single_cuts_f64 (p : profile) (a : algo) s d (m : list PrimFloat.float) 
   a = ANnchain \/ a = AGeneric \/ a = APrimitive ->
   run_with F64 p a Single s d m n = Ok (s', d', m') ->
   prologue p m n = Ok M0 -> 1 <= m_obs M0 ->
-  Forall (fun v => PrimFloat.ltb v (f_max F64) = true) m ->
+  Forall (fun v => PrimFloat.ltb v (f_inf F64) = true) m ->
   forall t : PrimFloat.float, PrimFloat.is_nan t = false ->
   exists j, j <= m_obs M0 - 1 /\ cut_at (kops_of F64 Single) t j (heights d')
     /\ forall x y, x < m_obs M0 -> y < m_obs M0 ->
@@ -227,7 +227,7 @@ Theorem single_cuts_f32 (p : profile) (a : algo) s d (m : list f32) (n : N) s' d
   a = ANnchain \/ a = AGeneric \/ a = APrimitive ->
   run_with F32 p a Single s d m n = Ok (s', d', m') ->
   prologue p m n = Ok M0 -> 1 <= m_obs M0 ->
-  Forall (fun v => Bltb v (f_max F32) = true) m ->
+  Forall (fun v => Bltb v (f_inf F32) = true) m ->
   forall t : f32, BinarySingleNaN.is_nan t = false ->
   exists j, j <= m_obs M0 - 1 /\ cut_at (kops_of F32 Single) t j (heights d')
     /\ forall x y, x < m_obs M0 -> y < m_obs M0 ->
